@@ -32,7 +32,7 @@ MECHANISMS = ["jaxley.solver_gate:save_exp", "jaxley.solver_gate:exponential_eul
               "jaxley.channels.hh:_vtrap", "jaxley.channels.pospischil:efun"]
 MECHANISMS_REQUIRED = ["jaxley.solver_gate:save_exp", "jaxley.solver_gate:exponential_euler"]
 REQUIRED = {"quick": {"gate_contract": 100000},
-            "thorough": {"gate_contract": 500000}}
+            "thorough": {"gate_contract": 1774848}}
 NVEC = 384
 
 
